@@ -3,7 +3,7 @@ CONSTANTS
   MaxN = 5
   MaxOps = 3
   MaxAttempt = 1
-  GenAttempts = 5
+  GenAttempts = 8
   Kinds = {"signing", "dkg"}
   Slots = {1}
   AllCalls = FALSE
